@@ -162,6 +162,14 @@ func histCheck(prop, tier, level string) int {
 		}
 		specs = append(specs, nsqd.MicroSpec{State: "expired", MemQ: 10, Ops: []string{"scan", "rdy2", "exit"}})
 		specs = append(specs, nsqd.MicroSpec{State: "inflight", MemQ: 10, Ops: []string{"pub", "rdy2", "exit"}})
+		// a topic with two channels (the second without a consumer): what lies at rest on the
+		// second comes back, and a publish racing the shutdown comes back on both or on neither
+		for _, st := range []string{"inflight", "queued"} {
+			for _, mq := range []int64{10, 0} {
+				specs = append(specs, nsqd.MicroSpec{State: st, MemQ: mq, TwoChan: true, Ops: []string{"exit"}})
+				specs = append(specs, nsqd.MicroSpec{State: st, MemQ: mq, TwoChan: true, Ops: []string{"pub", "exit"}})
+			}
+		}
 		secs := 15
 		if tier == "thorough" {
 			secs = 300
